@@ -275,6 +275,10 @@ func (g *genState) opNodeAdd() CoreOp {
 	g.nextNode++
 	id := fmt.Sprintf("node-%d", g.nextNode)
 	g.nodes = append(g.nodes, id)
+	if g.variant == "reserve" {
+		// small nodes: the cluster fills up and asks have to wait for a reservation
+		return CoreOp{Kind: "node_add", Node: id, Cap: g.r.res(g.ntypes, 3, 9, false), Drain: g.r.Chance(5)}
+	}
 	return CoreOp{Kind: "node_add", Node: id, Cap: g.r.res(g.ntypes, 6, 24, false), Drain: g.r.Chance(8)}
 }
 
@@ -322,6 +326,9 @@ func (g *genState) opAsk() CoreOp {
 		return g.opAppAdd()
 	}
 	op := CoreOp{Kind: "alloc", App: app, Key: g.newKey(app), Res: g.r.res(g.ntypes, 1, 7, true), Prio: int32(g.r.Intn(4)), AgeSec: int64(3600 + g.r.Intn(100))}
+	if g.variant == "reserve" {
+		op.Res = g.r.res(g.ntypes, 2, 7, false)
+	}
 	if tgs, ok := g.gangApps[app]; ok {
 		op.TaskGroup = g.pick(tgs)
 		if g.r.Chance(60) {
@@ -330,8 +337,16 @@ func (g *genState) opAsk() CoreOp {
 			op.TaskGroup = ""
 		}
 	}
-	if g.r.Chance(8) {
-		op.ReqNode = g.pick(append(g.nodes, "node-99"))
+	reqP := 8
+	if g.variant == "reserve" {
+		reqP = 30
+	}
+	if g.r.Chance(reqP) {
+		if g.variant == "reserve" && g.r.Chance(85) {
+			op.ReqNode = g.pick(g.nodes)
+		} else {
+			op.ReqNode = g.pick(append(g.nodes, "node-99"))
+		}
 	}
 	if g.r.Chance(30) {
 		op.PreemptOther = true
@@ -443,7 +458,7 @@ func (g *genState) opMalformed() CoreOp {
 var coreMix = map[string][]int{
 	"":          {300, 100, 200, 100, 30, 30, 15, 15, 15, 15, 15, 20, 25, 25, 20, 15, 15},
 	"gang":      {300, 110, 230, 120, 15, 10, 5, 10, 10, 10, 20, 15, 60, 45, 5, 5, 10},
-	"reserve":   {340, 90, 240, 90, 10, 20, 10, 15, 20, 30, 30, 20, 10, 10, 5, 5, 10},
+	"reserve":   {320, 80, 250, 110, 5, 10, 5, 5, 10, 40, 40, 40, 15, 10, 5, 5, 10},
 	"reload":    {250, 110, 180, 80, 20, 10, 5, 15, 10, 10, 10, 25, 15, 25, 150, 60, 10},
 	"malformed": {200, 90, 150, 90, 30, 30, 15, 15, 15, 10, 10, 15, 15, 15, 10, 10, 15},
 	"maxapps":   {330, 170, 200, 130, 10, 5, 5, 10, 5, 5, 5, 50, 15, 40, 10, 5, 5},
@@ -469,7 +484,7 @@ func genCoreCase(rng *Rng, maxOps int, variant string) (*CoreCase, error) {
 	if variant == "reserve" {
 		resDelay = true
 	}
-	w := CoreWorld{Configs: []string{coreConfigYAML(tree, preempt, policy)}, ResDelayOn: resDelay, ResWaitOn: resDelay && rng.Chance(25), PredDeny: []int{0, 0, 10, 30}[rng.Intn(4)], Seed: rng.Next()}
+	w := CoreWorld{Configs: []string{coreConfigYAML(tree, preempt, policy)}, ResDelayOn: resDelay, ResWaitOn: resDelay && rng.Chance(map[bool]int{true: 40, false: 25}[variant == "reserve"]), PredDeny: []int{0, 0, 10, 30}[rng.Intn(4)], Seed: rng.Next()}
 	nconf := rng.Intn(3)
 	cur := tree
 	for i := 0; i < nconf; i++ {
@@ -501,6 +516,9 @@ func genCoreCase(rng *Rng, maxOps int, variant string) (*CoreCase, error) {
 	}
 	// a small cluster first
 	nn := 1 + rng.Intn(3)
+	if variant == "reserve" {
+		nn = 1 + rng.Intn(2)
+	}
 	for i := 0; i < nn; i++ {
 		emit(g.opNodeAdd())
 	}
